@@ -777,20 +777,77 @@ def r3(ctx, repo):
     # --- _check_selected_forecaster rejects unknown names
     res2 = analysed(ctx, Prov(repo).run_method(cls, "_check_selected_forecaster"))
     fn2 = repo.lookup_method(cls, "_check_selected_forecaster")[1]
-    good = False
-    for r in res2.of_kind("raise"):
+    key = "MultiplexForecaster._check_selected_forecaster:rejects-unknown"
+    loc2 = ctx.loc(cls.module, fn2)
+
+    def component_kind(container):
+        """0 / 1 when the container holds exactly the names / the estimators of all of self.forecasters, else None."""
+        t = res2.as_seq(container)
+        if isinstance(t, tuple) and t[:2] == ("pure", "dict") and t[2] == (("attr0", "forecasters"),):
+            return 0
+        ke = res2.ret_event(t)
+        if ke is not None and ke.kind == "call" and ke.name == "keys" and ke.recv == ("pure", "dict", (("attr0", "forecasters"),), ()):
+            return 0
+        if isinstance(t, tuple) and t[:1] in (("set_of",), ("pure",)) and t[0] == "set_of":
+            t = t[1]
+        if isinstance(t, tuple) and t[:2] == ("pure", "set") and len(t[2]) == 1:
+            t = res2.as_seq(t[2][0])
+        base, rev, sl = seq_shape(t)
+        if sl is not None:
+            return None
+        if isinstance(base, tuple) and base[0] == "item" and base[1] == ("unzip", ("attr0", "forecasters")) and is_const(base[2]):
+            return base[2][1] if base[2][1] in (0, 1) else None
+        if isinstance(base, tuple) and base[0] == "comp":
+            L = res2.loops[base[2]]
+            if seq_shape(L.iter) == (("attr0", "forecasters"), False, None) and loop_plain(res2, L.id):
+                for k in (0, 1):
+                    if base[1] == ("item", ("elem", L.iter, L.id), ("const", k)):
+                        return k
+        return None
+
+    verdicts = []  # True: raised iff the name is unknown; False: provably another condition; None: not interpretable
+    raises = [r for r in res2.of_kind("raise") if r.frame is res2.frame]
+    for r in raises:
         for cond, pol, origin in res2.facts(r):
-            if isinstance(cond, tuple) and cond[0] == "cmp" and cond[2] == sel and (cond[1] == "NotIn") == pol and cond[1] in ("In", "NotIn"):
-                base, rev, sl = seq_shape(cond[3])
-                if isinstance(base, tuple) and base[0] == "comp":
-                    elt = base[1]
-                    L = res2.loops[base[2]]
-                    if seq_shape(L.iter) == (("attr0", "forecasters"), False, None) and elt == ("item", ("elem", L.iter, L.id), ("const", 0)) \
-                            and loop_plain(res2, L.id):
-                        good = True
-    ctx.check(good, "R3", "MultiplexForecaster._check_selected_forecaster:rejects-unknown",
-              "raises unless selected_forecaster is one of the component names",
-              "does not reject a `selected_forecaster` that names no component", ctx.loc(cls.module, fn2))
+            if isinstance(cond, tuple) and cond[0] == "cmp" and cond[1] in ("In", "NotIn") and cond[2] == sel:
+                kind = component_kind(cond[3])
+                unknown_name = (cond[1] == "NotIn") == pol  # the raise is reached when sel is NOT in the container
+                if kind == 0:
+                    verdicts.append(unknown_name)
+                elif kind == 1:
+                    verdicts.append(False)
+                else:
+                    verdicts.append(None)
+            elif isinstance(cond, tuple) and cond[:2] == ("pure", "any") and len(cond[2]) == 1:
+                c = cond[2][0]
+                c = c[1] if isinstance(c, tuple) and c[0] == "list_of" else c
+                if isinstance(c, tuple) and c[0] == "comp" and isinstance(c[1], tuple) and c[1][0] == "cmp" and c[1][1] == "Eq":
+                    L = res2.loops[c[2]]
+                    nm = ("item", ("elem", L.iter, L.id), ("const", 0))
+                    if seq_shape(L.iter) == (("attr0", "forecasters"), False, None) and loop_plain(res2, L.id) and {c[1][2], c[1][3]} == {sel, nm}:
+                        verdicts.append(pol is False)
+                    else:
+                        verdicts.append(None)
+        # search loop: ``for name, _ in forecasters: if name == sel: return`` followed by the raise
+        for L in res2.loops.values():
+            if L.kind != "for" or seq_shape(L.iter) != (("attr0", "forecasters"), False, None):
+                continue
+            nm = ("item", ("elem", L.iter, L.id), ("const", 0))
+            exits = [x for x in res2.early_exits(L.id) if x.kind == "return"]
+            if exits and all(any(isinstance(c, tuple) and c[0] == "cmp" and c[1] == "Eq" and {c[2], c[3]} == {sel, nm} and pol
+                                 for c, pol, _ in res2.facts(x)) for x in exits) \
+                    and r.id > max(x.id for x in exits) and L.id not in res2.loops_of(r) \
+                    and all(c[0] != "if" for c in res2.structural(r)):
+                verdicts.append(True)
+    if any(v is True for v in verdicts) and not any(v is False for v in verdicts):
+        ctx.ok("R3", key, "raises exactly when selected_forecaster is not one of the component names", loc2)
+    elif not raises or (verdicts and all(v is False for v in verdicts)) or (not verdicts and not any(
+            sel in _subterms(c) for r in raises for c, _, _ in res2.facts(r))):
+        ctx.violation("R3", key, "does not reject a `selected_forecaster` that names no component"
+                      + (" (the membership test is not against the component names / has the wrong polarity)" if verdicts else ""), loc2)
+    else:
+        ctx.undecided("R3", key, "cannot interpret the condition under which an unknown selected_forecaster is rejected: %s"
+                      % [[(res2.fmt(c), p) for c, p, _ in res2.facts(r)] for r in raises], loc2)
     # --- fit delegates to the freshly selected clone
     res3 = analysed(ctx, Prov(repo).run_method(cls, "fit"))
     fn3 = repo.lookup_method(cls, "fit")[1]
